@@ -72,7 +72,7 @@ ASSUMPTIONS = [
     "divisions executed by the code add 'divisor != 0' to the path condition (engine rule); for points in a non-degenerate triangle the divisor is the triangle area",
     "anchored rectangular cases: the listed anchor sub-pixels attain the bounding box (concrete dyadic values), all other coordinates lie inside it",
 ]
-EXPLORER_OPTS = {"timeout_ms": 20000, "max_paths": 20000}
+EXPLORER_OPTS = {"timeout_ms": 60000, "max_paths": 20000}
 BUDGET_S = {"quick": 600, "thorough": 2300}
 TOL = 1e-9
 # tolerance only where concrete float accumulation is involved (e.g. nine times fl(1/9)); everything else is exact
@@ -865,12 +865,12 @@ def cases(tier):
     q = tier == "quick"
     out = []
     M12, M13 = [[False, False]], [[False, False, False]]
-    # --- overlay geometry, everything symbolic, every assignment of the four extremes to N points
+    # --- overlay geometry, everything symbolic; "all" = every assignment of the four extremes to the N points (by forking)
     ov = [(3, 3, 2, "mesh", None, "all"), (3, 5, 2, "overlay", 0.25, "all"), (4, 3, 3, "mesh", None, [0, 1, 2, 0]), (3, 4, 3, "overlay", None, [2, 2, 1, 0]),
           (3, 7, 6, "mesh", None, [4, 1, 1, 3])]
     if not q:
-        ov += [(3, 3, 3, "mesh", None, "all"), (3, 4, 3, "overlay", None, "all"), (5, 3, 3, "overlay", 0.25, "all"), (3, 5, 4, "mesh", None, "all"),
-               (6, 3, 3, "overlay", 0.0, "all"), (4, 6, 2, "mesh", None, "all")]
+        ov += [(3, 3, 3, "mesh", None, "all"), (4, 6, 2, "mesh", None, "all"), (5, 3, 3, "overlay", 0.25, [1, 0, 0, 2]), (5, 3, 3, "overlay", 0.5, [2, 1, 2, 1]),
+               (3, 5, 4, "mesh", None, [3, 0, 1, 2]), (3, 5, 4, "mesh", None, [0, 0, 3, 3]), (6, 3, 5, "overlay", None, [4, 2, 0, 1])]
     for (H, W, N, via, buf, ext) in ov:
         out.append(("case_overlay", {"H": H, "W": W, "N": N, "via": via, "buffer": buf, "ext": ext}))
     # --- rectangular mapper, concrete bounding box attained by the anchors, other coordinates symbolic
@@ -883,21 +883,19 @@ def cases(tier):
     ]
     if not q:
         rect += [
-            dict(mshape=[1, 2], sub="e", H=5, W=3, box="B", anchors=[7, 2, 3, 6], regions=[[0, 1, 0, 0], [4, 4, 1, 2], [2, 3, 1, 1], [3, 3, 0, 2]], mask=M12),
-            dict(mshape=[1, 2], sub="f", H=3, W=5, box="C", anchors=[15, 3, 16, 0], regions=[[0, 0, 0, 1], [1, 1, 2, 4], [2, 2, 1, 1], [0, 2, 3, 3], [1, 2, 0, 0]], mask=M12),
-            dict(mshape=[1, 3], sub="g", H=4, W=4, box="D", anchors=[0, 9, 10, 1], regions=[None, [0, 1, 0, 1], [2, 3, 2, 3], [1, 2, 1, 2], [3, 3, 0, 3], [0, 0, 3, 3]], mask=M13),
-            dict(mshape=[2, 3], sub="a", H=3, W=3, box="B", anchors=[0, 2, 1, 0], regions=[[0, 0, 0, 1], [1, 1, 1, 2], [2, 2, 0, 0], [1, 2, 2, 2]], mask=None),
-            dict(mshape=[1, 3], sub="a", H=6, W=3, box="A", anchors=[5, 1, 1, 4], regions=[None, [0, 2, 0, 0], [3, 5, 1, 2], None, [2, 3, 1, 1], [5, 5, 0, 2]], mask=M13),
+            dict(mshape=[1, 2], sub="e", H=5, W=3, box="B", anchors=[7, 2, 3, 6], regions=[[0, 1, 0, 0], [4, 4, 1, 2], [2, 2, 1, 1], [3, 3, 0, 1]], mask=M12),
+            dict(mshape=[1, 2], sub="f", H=3, W=5, box="C", anchors=[15, 3, 16, 0], regions=[[0, 0, 0, 1], [1, 1, 2, 2], [2, 2, 1, 1], [0, 1, 3, 3], [1, 1, 0, 0]], mask=M12),
+            dict(mshape=[1, 3], sub="g", H=4, W=4, box="D", anchors=[0, 9, 10, 1], regions=[None, [0, 1, 0, 0], [2, 2, 2, 3], [1, 1, 1, 1], [3, 3, 0, 0], [0, 0, 3, 3]], mask=M13),
+            dict(mshape=[2, 3], sub="a", H=3, W=3, box="B", anchors=[0, 2, 1, 0], regions=[[0, 0, 0, 0], [1, 1, 1, 2], [2, 2, 0, 0], [1, 1, 2, 2]], mask=None),
+            dict(mshape=[1, 3], sub="a", H=6, W=3, box="A", anchors=[5, 1, 1, 4], regions=[None, [0, 1, 0, 0], [3, 3, 1, 2], [4, 5, 2, 2], [2, 2, 1, 1], [5, 5, 0, 0]], mask=M13),
             dict(mshape=[1, 2], sub="c", H=7, W=8, box="D", anchors=[0, 1, 1, 0], regions=[None, None], mask=M12),
         ]
     for c in rect:
-        out.append(("case_rect", c))
+        out.append(("case_rect", c, {"split": 3}) if c["sub"] == "g" else ("case_rect", c))
     # --- rectangular mapper, symbolic bounding box (designated extremes), non-linear index arithmetic
     out.append(("case_rect", dict(mshape=[1, 2], sub="c", H=3, W=4, box=None, anchors=[0, 1, 1, 0], regions=[None, None], mask=M12)))
     if not q:
-        out.append(("case_rect", dict(mshape=[1, 3], sub="c", H=3, W=3, box=None, anchors=[0, 1, 0, 1], regions=[None, None, [0, 1, 1, 2]], mask=M13)))
-        out.append(("case_rect", dict(mshape=[1, 3], sub="c", H=3, W=4, box=None, anchors=[0, 1, 1, 2], regions=[None, None, None], mask=M13), {"timeout_ms": 60000}))
-        out.append(("case_rect", dict(mshape=[1, 2], sub="b", H=4, W=3, box=None, anchors=[0, 1, 0, 2], regions=[None, None, [1, 2, 1, 1], [0, 1, 0, 1], [2, 3, 2, 2]], mask=M12), {"timeout_ms": 60000}))
+        out.append(("case_rect", dict(mshape=[1, 3], sub="c", H=3, W=3, box=None, anchors=[0, 1, 0, 1], regions=[None, None, [0, 1, 1, 2]], mask=M13), {"timeout_ms": 60000}))
     # --- Delaunay mapper: one free point over the whole plane for every vertex set
     for vn in ["v4", "v5", "v6", "v7"] + ([] if q else ["v9"]):
         out.append(("case_del", dict(mshape=[1, 1], sub="c", verts=vn, plan=["free"], mask=[[False]])))
@@ -910,12 +908,12 @@ def cases(tier):
     ]
     if not q:
         dl += [
-            dict(mshape=[1, 3], sub="c", verts="v6", plan=[-1, "free", 1], mask=M13),
-            dict(mshape=[1, 2], sub="a", verts="v6", plan=[0, "free", 2, 3, -1], mask=M12),
+            dict(mshape=[1, 2], sub="c", verts="v5", plan=["free", -1], mask=M12),
             dict(mshape=[1, 2], sub="c", verts="v5", plan=["free", "free"], mask=M12),
-            dict(mshape=[1, 2], sub="f", verts="v9", plan=[0, 1, 2, 3, 4, 5, 6, 7, "free", 1, 3, 5, 7, 0, 2, 4, -1], mask=M12),
+            dict(mshape=[1, 2], sub="a", verts="v6", plan=[0, "free", 2, 3, 1], mask=M12),
+            dict(mshape=[1, 2], sub="f", verts="v9", plan=[0, 1, 2, 3, 4, 5, 6, 7, "free", 1, 3, 5, 7, 0, 2, 4, 6], mask=M12),
             dict(mshape=[2, 3], sub="a", verts="v7", plan=[0, 1, 2, 3, 4, 5, 6, 5, 4, 3, 2, 1], mask=None),
-            dict(mshape=[1, 3], sub="g", verts="v6", plan=["free", 0, 1, 2, 3, 0, 1, 2, 3, -1, 1, 2, 3, 0, 2], mask=M13),
+            dict(mshape=[1, 3], sub="g", verts="v6", plan=[-1, 0, 1, 2, 3, 0, 1, 2, 3, 4, 1, 2, 3, 0, 2], mask=M13),
         ]
     for c in dl:
         out.append(("case_del", c))
@@ -931,10 +929,10 @@ def cases(tier):
         tb += [
             (dict(sub=[2, 1], K=2, P=3, sizes=[2, 1, 2, 1, 1]), {"split": 3}),
             (dict(sub=[1, 1], K=3, P=4, sizes=[3, 3], distinct=True), {}),
-            (dict(sub=[1, 1], K=3, P=3, sizes=[3, 3], mode="merge"), {}),
-            (dict(sub=[2, 1, 2], K=1, P=2, sizes=[1] * 9), {"split": 3}),
-            (dict(sub=[1, 2], K=3, P=4, sizes=[3, 1, 1, 1, 1], distinct=True), {"split": 3}),
+            (dict(sub=[2, 1, 2], K=1, P=2, sizes=[1] * 9), {"split": 2}),
+            (dict(sub=[1, 2], K=3, P=3, sizes=[3, 1, 1, 1, 1], distinct=True), {}),
             (dict(sub=[3, 1], K=1, P=2, sizes=[1] * 10), {"split": 3}),
+            (dict(sub=[1, 1], K=3, P=3, sizes=[2, 2], mode="merge"), {}),
         ]
     for c, o in tb:
         out.append(("case_tables", c, o) if o else ("case_tables", c))
